@@ -298,7 +298,7 @@ def check_store_cases(cases, res, stratum, pid, huge=False, keep_array=False):
         if io['codes'] != spec_codes:
             j = next(k for k in range(len(spec_codes)) if k >= len(io['codes']) or io['codes'][k] != spec_codes[k])
             one = dict(small); one['index_in_original'] = j
-            if not (huge or keep_array):                                       # (with a huge neighbour the whole array is the failing input)
+            if not (huge or keep_array or c['carrier'] == 'arr_obj'):          # (with a huge neighbour, or in a mixed object array, the whole array is the failing input)
                 one['vals'] = [c['vals'][j]] * (2 if c['carrier'] in ('nested', 'arr2d') else 1)   # (two-row carriers need an even count)
             res.fail(one, pid + ': stored code differs from OVERFLOW(ROUND(v*2^n_frac))', expected=spec_codes[j], got=io['codes'][j] if j < len(io['codes']) else None)
             continue
